@@ -35,14 +35,22 @@ const (
 )
 
 func nanosecondsInYear(year int) int64 {
-	start := time.Date(year, time.January, 1, 0, 0, 0, 0, time.Local)
-	end := time.Date(year+1, time.January, 1, 0, 0, 0, 0, time.Local)
+	// the year is laid out in the configured timezone (see TimeToIndex), not in the process's local one
+	loc := utils.InstanceConfig.Timezone
+	if loc == nil {
+		loc = time.Local
+	}
+	start := time.Date(year, time.January, 1, 0, 0, 0, 0, loc)
+	end := time.Date(year+1, time.January, 1, 0, 0, 0, 0, loc)
 	return end.Sub(start).Nanoseconds()
 }
 
 // FileSize returns the necessary size for a data file.
 func FileSize(tf time.Duration, year, recordSize int) int64 {
-	return Headersize + (nanosecondsInYear(year)/tf.Nanoseconds())*int64(recordSize)
+	// round up: a year whose length is not a multiple of the timeframe (possible when the zone's
+	// UTC offset changes during the year) still needs room for its last, partial interval
+	intervals := (nanosecondsInYear(year) + tf.Nanoseconds() - 1) / tf.Nanoseconds()
+	return Headersize + intervals*int64(recordSize)
 }
 
 type TimeBucketInfo struct {
